@@ -702,4 +702,16 @@ theorem tryBackends_attempts_all {α β : Type} (f : α → Option β) (l : List
     rw [ih (fun x hx => h x (by simp [hx]))]
     simp
 
+/-! ### classified attempts: the walk ignores the class of a failure -/
+
+theorem tryBackendsE_neverStop {α β : Type} (f : α → Attempt β) (l : List α) :
+    tryBackendsE neverStop f l = tryBackends (fun a => (f a).toOption) l := by
+  induction l with
+  | nil => rfl
+  | cons a t ih =>
+    simp only [tryBackendsE, tryBackends]
+    cases f a with
+    | ok b => simp [Attempt.toOption]
+    | fail c => simp [Attempt.toOption, neverStop, ih]
+
 end Gate.C32
